@@ -285,7 +285,7 @@ class ModelCases(Suite):
         S = schema_h.schema()
         G = gen()
         out = []
-        seeds = 1 if budget == "quick" else 6
+        seeds = 4 if budget == "quick" else 40
         for cid in protocol_classes(S):
             rng = ctx.sub_rng(self.name, cid)
             # every optional-field subset (small models) / seeded subsets (large), extras varied
@@ -330,6 +330,12 @@ class ModelCases(Suite):
         return schema_h.both("validate", [{"cls": c["cls"], "wire": c["wire"]} for c in cases])
 
     def model_line(self, case):
+        if attr_name_members(case) == "both":
+            # An alias member together with a member named like its Python attribute: which of the
+            # two the attribute ends up holding is an accident of dict assignment order in the pinned
+            # code (and both are kept after fixes/C09-attr-name-member-kept.diff); the input is
+            # outside `conforms`, so the model is not consulted — the oracle compares the backends.
+            return None
         return {"m": "schema", "op": "validate", "cls": case["cls"], "j": schema_h.enc(case["wire"])}
 
     def model_obs(self, out, case):
@@ -345,7 +351,7 @@ class ModelCases(Suite):
     def compare(self, case, o, m):
         if "driver_error" in m:
             return "driver: " + str(m["driver_error"])
-        sides = ["fallback"] + (["pydantic"] if self.compare_pydantic and case.get("mode") != "attr-both" else [])
+        sides = ["fallback"] + (["pydantic"] if self.compare_pydantic else [])
         for side in sides:
             r = o[side]
             if bool(r.get("ok")) != bool(m["ok"]):
